@@ -114,6 +114,9 @@ pub enum Path {
     Closure,
     Captured,
     Message,
+    /// the tuple is assembled inside a generic function from its first field (the value then
+    /// carries the tuple id of the generic definition, not the one of the literal)
+    GenericCtor,
 }
 
 fn path() -> impl Strategy<Value = Path> {
@@ -128,6 +131,7 @@ fn path() -> impl Strategy<Value = Path> {
         1 => Just(Path::Closure),
         2 => Just(Path::Captured),
         2 => Just(Path::Message),
+        3 => Just(Path::GenericCtor),
     ]
 }
 
@@ -251,6 +255,25 @@ fn construct(var: &str, v: &V, path: &Path, salt: u8, out: &mut Built) {
             _ => computed(v, salt),
         },
         Path::GenericId => format!("{lit} idg"),
+        Path::GenericCtor => match v {
+            V::Tup { name, fields } if !fields.is_empty() => {
+                let k = salt as usize % fields.len();
+                let fs: Vec<String> = fields
+                    .iter()
+                    .enumerate()
+                    .map(|(i, (l, f))| {
+                        let val = if i == k { "~".to_string() } else { f.source() };
+                        match l {
+                            Some(l) => format!("{l}: {val}"),
+                            None => val,
+                        }
+                    })
+                    .collect();
+                out.lines.push(format!("{var}_mk = #<'t>'t {{ {}[{}] }}", name.clone().unwrap_or_default(), fs.join(", ")));
+                format!("{} {var}_mk", computed(&fields[k].1, salt))
+            }
+            _ => format!("{} idg", computed(v, salt)),
+        },
         Path::Dispatch => format!("{} dsp", computed(v, salt)),
         Path::Module => {
             let name = format!("mod{var}");
@@ -300,7 +323,7 @@ pub fn strategy() -> impl Strategy<Value = Case> {
     (value(), prop::option::weighted(0.55, prop::collection::vec(any::<u8>(), 2)), path(), path(), path(), any::<[u8; 3]>()).prop_map(|(a, dice, pa, pb, pc, salts)| Case { a, dice, pa, pb, pc, salts })
 }
 
-pub const FORMS: usize = 11;
+pub const FORMS: usize = 14;
 
 pub struct Rendered {
     pub source: String,
@@ -308,7 +331,15 @@ pub struct Rendered {
     pub needs_env: bool,
     /// expected verdict per form (true = Ok)
     pub expected: Vec<bool>,
+    /// `a` is a tuple that was assembled inside a generic function (see LITERAL_ON_GENERIC)
+    pub a_generic_built: bool,
 }
+
+/// Recorded finding (C08's, seen here): a literal / tuple pattern is a run-time type test, and that
+/// looks only at the tuple id the value was constructed with; a tuple assembled inside a generic
+/// function matches every pattern of its name and arity. Only "different values compare equal" in
+/// the two literal-pattern forms with such a scrutinee is attributed to it.
+pub const LITERAL_ON_GENERIC: &str = "different-values-compare-equal:literal-pattern-on-a-value-assembled-in-a-generic-function";
 
 pub fn render(c: &Case) -> Rendered {
     let b = c.b();
@@ -324,18 +355,27 @@ pub fn render(c: &Case) -> Rendered {
     construct("b", &b, &c.pb, c.salts[1], &mut out);
     construct("c", &c.a, &c.pc, c.salts[2], &mut out);
     let lb = b.source();
+    // Recorded finding (see LITERAL_ON_GENERIC): a literal pattern on a tuple that was assembled
+    // inside a generic function is excluded by construction — the two literal-pattern forms then
+    // test b against its own literal (Ok however b was built).
+    let a_generic_built = c.pa == Path::GenericCtor && matches!(&c.a, V::Tup { fields, .. } if !fields.is_empty());
+    let (lit_scrutinee, lit_eq) = if a_generic_built { ("b", true) } else { ("a", eq) };
     let forms = vec![
         ("a =&b".to_string(), eq),
         ("b =&a".to_string(), eq),
         ("[a, b] =[x0, x0]".to_string(), eq),
-        (format!("a ={lb}"), eq),
+        (format!("{lit_scrutinee} ={lb}"), lit_eq),
         ("P[q: a, r: 1] =P[q: &b, r: 1]".to_string(), eq),
-        (format!("[a, 5] =[{lb}, 5]"), eq),
+        (format!("[{lit_scrutinee}, 5] =[{lb}, 5]"), lit_eq),
         ("Wr[a] =Wr[&b]".to_string(), eq),
         ("a =&c".to_string(), true),
         ("c =&a".to_string(), true),
         ("[a, c, a] =[y0, y0, y0]".to_string(), true),
         ("[c, b] =[z0, z0]".to_string(), eq),
+        // repeated binders whose occurrences carry a type ascription
+        ("[a, b] =[v0, ('u)v0]".to_string(), eq),
+        ("[b, a] =[('u)w0, w0]".to_string(), eq),
+        ("[a, b, c] =[('u)t0, ('u)t0, t0]".to_string(), eq),
     ];
     // each form in its own closure: a match used as a value narrows its operands for the rest of
     // the enclosing scope (a separate, recorded defect), so forms must not see each other
@@ -343,7 +383,7 @@ pub fn render(c: &Case) -> Rendered {
         out.lines.push(format!("q{i} = #{{ {f} }}"));
     }
     out.lines.push(format!("[{}]", (0..forms.len()).map(|i| format!("[] q{i}")).collect::<Vec<_>>().join(", ")));
-    Rendered { source: out.lines.join(",\n"), modules: out.modules, needs_env: out.needs_env, expected: forms.iter().map(|(_, e)| *e).collect() }
+    Rendered { source: out.lines.join(",\n"), modules: out.modules, needs_env: out.needs_env, expected: forms.iter().map(|(_, e)| *e).collect(), a_generic_built }
 }
 
 fn verdicts(v: &HVal) -> Option<Vec<bool>> {
@@ -362,7 +402,7 @@ pub struct Facts {
     pub discarded: bool,
 }
 
-const FORM_TEXT: [&str; FORMS] = ["a =&b", "b =&a", "[a, b] =[x, x]", "a =<literal b>", "P[q: a, r: 1] =P[q: &b, r: 1]", "[a, 5] =[<literal b>, 5]", "Wr[a] =Wr[&b]", "a =&c", "c =&a", "[a, c, a] =[y, y, y]", "[c, b] =[z, z]"];
+const FORM_TEXT: [&str; FORMS] = ["a =&b", "b =&a", "[a, b] =[x, x]", "a =<literal b>", "P[q: a, r: 1] =P[q: &b, r: 1]", "[a, 5] =[<literal b>, 5]", "Wr[a] =Wr[&b]", "a =&c", "c =&a", "[a, c, a] =[y, y, y]", "[c, b] =[z, z]", "[a, b] =[v, ('u)v]", "[b, a] =[('u)w, w]", "[a, b, c] =[('u)t, ('u)t, t]"];
 
 pub fn check_rendered(r: &Rendered, reg: &qrun::Registry) -> Result<Facts, (String, String)> {
     let mods: Modules = r.modules.iter().map(|(n, s)| (vec![n.clone()], s.clone())).collect();
@@ -389,12 +429,70 @@ pub fn check_rendered(r: &Rendered, reg: &qrun::Registry) -> Result<Facts, (Stri
         };
         for (i, (g, e)) in got.iter().zip(r.expected.iter()).enumerate() {
             if g != e {
-                let kind = if *e { "equal-values-compare-unequal" } else { "different-values-compare-equal" };
+                let kind = if *e {
+                    "equal-values-compare-unequal"
+                } else if r.a_generic_built && (i == 3 || i == 5) {
+                    LITERAL_ON_GENERIC
+                } else {
+                    "different-values-compare-equal"
+                };
                 return Err((kind.into(), format!("variant {}: form `{}` gives {} but the two values are structurally {}\n{what}", run.name, FORM_TEXT[i], if *g { "Ok" } else { "[]" }, if *e { "the same" } else { "different" })));
             }
         }
     }
     Ok(f)
+}
+
+/// The same comparisons spread over a REPL session: the definitions on the first line, a line
+/// that adds code but no new tuple shape, then all forms on a later line (the workers' tables are
+/// updated incrementally between lines). Verdicts must be the ones of the single program.
+pub fn check_in_repl(r: &Rendered, reg: &qrun::Registry, workers: usize) -> Result<(), (String, String)> {
+    let mods: Modules = r.modules.iter().map(|(n, s)| (vec![n.clone()], s.clone())).collect();
+    let lines: Vec<&str> = r.source.split(",\n").collect();
+    let Some((_, defs)) = lines.split_last() else { return Ok(()) };
+    // every form on a line of its own: `[] qi` yields Ok or [] and registers no new tuple shape
+    let mut session = vec![defs.join(", "), "n9 = 12345, n9".to_string()];
+    session.extend((0..r.expected.len()).map(|i| format!("[] q{i}")));
+    let what = format!("{}--- session ---\n{}", r.modules.iter().map(|(n, s)| format!("--- module {n} ---\n{s}\n")).collect::<String>(), session.join("\n"));
+    let cfg = SimCfg { workers, quanta: vec![1000], schedule: vec![], max_moves: 3_000_000, env_slow: 0 };
+    let mut rs = match catch(|| crate::replsim::ReplSim::new(cfg, &mods, reg)) {
+        Ok(Ok(rs)) => rs,
+        Ok(Err(e)) => return Err(("harness".into(), format!("ReplSim::new: {e}"))),
+        Err(p) => return Err(("repl-panic".into(), format!("{p}\n{what}"))),
+    };
+    let ok = HVal::Tuple(Some("Ok".into()), vec![]);
+    for (li, l) in session.iter().enumerate() {
+        let v = match catch(|| rs.eval(l)) {
+            Ok(Ok(crate::replsim::LineOutcome::Value(v))) => v,
+            Ok(Ok(other)) => return Err(("repl:line-not-evaluated".into(), format!("line `{}` gives {other:?}\n{what}", truncate(l, 200)))),
+            Ok(Err(e)) if e == "budget" => return Ok(()),
+            Ok(Err(e)) => return Err(("repl:stuck".into(), format!("line `{}`: {e}\n{what}", truncate(l, 200)))),
+            Err(p) => return Err(("repl-panic".into(), format!("{p}\n{what}"))),
+        };
+        if li < 2 {
+            continue;
+        }
+        let i = li - 2;
+        let g = if v == ok {
+            true
+        } else if v.is_nil() {
+            false
+        } else {
+            return Err(("bad-result".into(), format!("REPL session: line `{l}` gives {}\n{what}", v.full())));
+        };
+        let e = r.expected[i];
+        if g != e {
+            let kind = if e {
+                "equal-values-compare-unequal"
+            } else if r.a_generic_built && (i == 3 || i == 5) {
+                LITERAL_ON_GENERIC
+            } else {
+                "different-values-compare-equal"
+            };
+            return Err((kind.into(), format!("REPL session ({workers} worker(s)): form `{}` gives {} on a later line but the two values are structurally {}\n{what}", FORM_TEXT[i], if g { "Ok" } else { "[]" }, if e { "the same" } else { "different" })));
+        }
+    }
+    Ok(())
 }
 
 // ---------------------------------------------------------------------------------------------
@@ -570,10 +668,20 @@ pub fn run(ctx: &Ctx) -> i32 {
         let strat = strategy();
         let res = pt_search(derive_seed(ctx.seed, ctx.id, shard, 0), cases_per_shard, &strat, &stats, |case| {
             let r = render(case);
-            crumb(ctx.id, || json!({"kind": "values", "source": r.source, "modules": r.modules, "needs_env": r.needs_env, "expected": r.expected}));
-            match check_rendered(&r, &reg) {
+            crumb(ctx.id, || json!({"kind": "values", "source": r.source, "modules": r.modules, "needs_env": r.needs_env, "expected": r.expected, "a_generic_built": r.a_generic_built}));
+            let in_repl = case.salts[2] % 4 == 0;
+            let checked = check_rendered(&r, &reg).and_then(|f| {
+                if in_repl {
+                    check_in_repl(&r, &reg, 1 + (case.salts[1] % 2) as usize)?;
+                }
+                Ok(f)
+            });
+            match checked {
                 Ok(f) => {
-                    stats.evals(f.runs as u64);
+                    stats.evals(f.runs as u64 + in_repl as u64);
+                    if in_repl {
+                        stats.class("variant:repl-session-forms-on-a-later-line");
+                    }
                     stats.class(if f.equal_pair { "pair:structurally-equal" } else { "pair:differs-in-one-place" });
                     for p in [&case.pa, &case.pb, &case.pc] {
                         stats.class(match p {
@@ -587,6 +695,7 @@ pub fn run(ctx: &Ctx) -> i32 {
                             Path::Closure => "path:returned-from-closure",
                             Path::Captured => "path:captured-then-returned",
                             Path::Message => "path:sent-and-received",
+                            Path::GenericCtor => "path:assembled-inside-a-generic-function",
                         });
                     }
                     if case.pa != case.pb {
@@ -607,7 +716,7 @@ pub fn run(ctx: &Ctx) -> i32 {
         if let Search::Failed { minimal, message } = res {
             let (sig, msg) = message.split_once('\u{1}').map(|(a, b)| (a.to_string(), b.to_string())).unwrap_or((message.clone(), message));
             let r = render(&minimal);
-            out.push(Violation { signature: sig, summary: truncate(&msg, 6000), replay: json!({"kind": "values", "source": r.source, "modules": r.modules, "needs_env": r.needs_env, "expected": r.expected}) });
+            out.push(Violation { signature: sig, summary: truncate(&msg, 6000), replay: json!({"kind": "values", "source": r.source, "modules": r.modules, "needs_env": r.needs_env, "expected": r.expected, "a_generic_built": r.a_generic_built}) });
         }
 
         // stream 2: functions
@@ -679,16 +788,27 @@ pub fn run(ctx: &Ctx) -> i32 {
         }
     }
 
+    // the recorded finding is re-established by a directed input on every run
+    if known.is_known(ctx.id, LITERAL_ON_GENERIC).is_some() {
+        let reg = qrun::registry();
+        let src = "'u = [K] | [P]\nwd = #'u { $ },\nmk = #<'t>'t { [~] },\na = K mk wd,\na =[P]";
+        match qrun::eval_source(src, &Modules::new(), &reg, 1000, 1_000_000) {
+            qrun::Outcome::Val(v) if v.to_string() == "Ok" => stats.known_hit(LITERAL_ON_GENERIC),
+            other => println!("NOTE: known finding {LITERAL_ON_GENERIC} no longer reproduces (witness gives {other:?})"),
+        }
+    }
+
     finish(Report {
         ctx,
         stats: &stats,
         violations,
-        rule: "stream 1: a generated value a (ints incl. large, binaries, named/unnamed tuples with labels, depth <= 3), b = a or a changed in exactly one place (a leaf, a byte, a length, a name, a label, the arity), and c = a again; each built along a generated path (literal; computed: addition, concatenation/slice so the binary is a heap rope; fields through variables; spread override; through a generic function; through a dispatch function; imported from a module; returned from a closure; captured then returned; sent to a process and awaited back) and widened at a union type so the comparison runs at run time; eleven comparison forms (pinned both ways, repeated binders, literal patterns, nested in tuples, a vs c both ways, three-way repeated binder) in every packaging variant (as compiled, tree-shaken, JSON, merged); verdict = structural equality of the host values. stream 2: closures of one definition with equal/different captures (ints or heap binaries), the same closure through four paths, and closures of a second, different definition with the same captures. stream 3: 2-5 processes mint 1-4 refs each on 1-4 simulated workers, main mints 0-2, all pairs compared: equal iff same minting. evaluations = program runs; non-trivial = the two values were built along different paths; distinct by program text".into(),
+        rule: "stream 1: a generated value a (ints incl. large, binaries, named/unnamed tuples with labels, depth <= 3), b = a or a changed in exactly one place (a leaf, a byte, a length, a name, a label, the arity), and c = a again; each built along a generated path (literal; computed: addition, concatenation/slice so the binary is a heap rope; fields through variables; spread override; through a generic function; assembled inside a generic function from one of its fields; through a dispatch function; imported from a module; returned from a closure; captured then returned; sent to a process and awaited back) and widened at a union type so the comparison runs at run time; fourteen comparison forms (pinned both ways, repeated binders, literal patterns, nested in tuples, a vs c both ways, three-way repeated binder, repeated binders with type ascriptions on the first / later / several occurrences) in every packaging variant (as compiled, tree-shaken, JSON, merged) and, for a quarter of the cases, spread over a REPL session in the simulator (definitions, a line adding code but no tuple shape, then every form on a line of its own); verdict = structural equality of the host values. stream 2: closures of one definition with equal/different captures (ints or heap binaries), the same closure through four paths, and closures of a second, different definition with the same captures. stream 3: 2-5 processes mint 1-4 refs each on 1-4 simulated workers, main mints 0-2, all pairs compared: equal iff same minting. evaluations = program runs; non-trivial = the two values were built along different paths; distinct by program text".into(),
         assumptions: vec![
             "integers are compared by value, binaries by bytes, tuples by name, labels and fields; functions by definition site and captured values, as the statement says".into(),
             "the widening function is an identity at a union type; it does not rebuild the value".into(),
+            "recorded finding (root cause under C08): literal/tuple patterns are run-time type tests on the tuple id a value was constructed with, and a tuple assembled inside a generic function matches every pattern of its name and arity; only 'different values compare equal' in the two literal-pattern forms with such a scrutinee is attributed to it".into(),
         ],
-        required_classes: vec!["pair:structurally-equal", "pair:differs-in-one-place", "path:literal", "path:computed(heap-rope-vs-constant)", "path:fields-through-variables", "path:spread-override", "path:generic-function", "path:dispatch-function", "path:imported-from-module", "path:returned-from-closure", "path:captured-then-returned", "path:sent-and-received", "functions:definition-identity-and-captures", "probe:nil-equals-nil", "refs:all-pairs-compared", "refs:minted-on-2+-workers"],
+        required_classes: vec!["pair:structurally-equal", "pair:differs-in-one-place", "variant:repl-session-forms-on-a-later-line", "path:assembled-inside-a-generic-function", "path:literal", "path:computed(heap-rope-vs-constant)", "path:fields-through-variables", "path:spread-override", "path:generic-function", "path:dispatch-function", "path:imported-from-module", "path:returned-from-closure", "path:captured-then-returned", "path:sent-and-received", "functions:definition-identity-and-captures", "probe:nil-equals-nil", "refs:all-pairs-compared", "refs:minted-on-2+-workers"],
         started,
         technique: "proptest-generated values x construction paths x comparison forms x packaging variants; oracle = structural equality of host models; refs: identity model over simulated workers",
     })
@@ -703,8 +823,13 @@ pub fn replay(payload: &serde_json::Value) -> Result<(), String> {
                 modules: payload["modules"].as_array().map(|a| a.iter().filter_map(|m| Some((m[0].as_str()?.to_string(), m[1].as_str()?.to_string()))).collect()).unwrap_or_default(),
                 needs_env: payload["needs_env"].as_bool().unwrap_or(false),
                 expected: payload["expected"].as_array().map(|a| a.iter().map(|x| x.as_bool().unwrap_or(false)).collect()).unwrap_or_default(),
+                a_generic_built: payload["a_generic_built"].as_bool().unwrap_or(false),
             };
-            check_rendered(&r, &reg).map(|_| ()).map_err(|(s, m)| format!("{s}: {}", truncate(&m, 4000)))
+            check_rendered(&r, &reg).map(|_| ()).map_err(|(s, m)| format!("{s}: {}", truncate(&m, 4000)))?;
+            for w in [1, 2] {
+                check_in_repl(&r, &reg, w).map_err(|(s, m)| format!("{s}: {}", truncate(&m, 4000)))?;
+            }
+            Ok(())
         }
         "fn" => {
             let c = FnCase { cap_a: payload["cap_a"].as_i64().unwrap_or(0), cap_b: payload["cap_b"].as_i64().unwrap_or(0), bin_caps: payload["bin_caps"].as_bool().unwrap_or(false), via: payload["via"].as_u64().unwrap_or(0) as u8 };
